@@ -23,3 +23,12 @@ Print Assumptions C17_selection.
 
 Example C17_example : value_columns [0; 1; 2; 3] [1; 3] = [0; 2] /\ selected_columns [0; 1; 2; 3] [1] None = [0; 2; 3].
 Proof. split; reflexivity. Qed.
+
+(* Tie B (pins): the functions this property's models transcribe read, statement by statement, as they did when the models
+   were written against them; Gen/SourcesGen.v is regenerated from /repo on every run (translator/pins.py). *)
+From GL Require Import Gen.SourcesGen Model.Sources Proofs.PinC17.
+Theorem C17_modelled_functions_are_the_source's :
+  gen_src_dataframe_from_by_keys = src_dataframe_from_by_keys /\
+  gen_src_series_from_by_keys = src_series_from_by_keys.
+Proof. exact (conj pin_dataframe_from_by_keys pin_series_from_by_keys). Qed.
+Print Assumptions C17_modelled_functions_are_the_source's.
